@@ -40,6 +40,27 @@ def row (cells : List Cell) (blank : Nat := 32) (nl : Nat := 10) : List Nat :=
 def rowWidth (cells : List Cell) : Nat :=
   (cells.map (·.width)).sum + (cells.length - 1) + 1
 
+/-- two decimal digits (`%02d`) -/
+def dd (n : Nat) : List Nat := [48 + n / 10 % 10, 48 + n % 10]
+
+/-- `"%d:%02d:%02d"` of a number of seconds below one day -/
+def hms (secs : Nat) : List Nat :=
+  let h := secs / 3600
+  (if h < 10 then [48 + h] else dd h) ++ [58] ++ dd (secs / 60 % 60) ++ [58] ++ dd (secs % 60)
+
+def natDigits (n : Nat) : List Nat := (Nat.toDigits 10 n).map Char.toNat
+
+/-- `prettify_timedelta` (job_util.py) of a time difference given in microseconds: `str(timedelta)`
+    - `"D day(s), H:MM:SS[.ffffff]"` - with a leading `-` and the magnitude for negative values, cut at the
+    first `,` and at the first `.`: whole days only once a day is reached, else `H:MM:SS` truncated to
+    the second -/
+def prettify (us : Int) : List Nat :=
+  let a := us.natAbs
+  let days := a / 86400000000
+  let secs := a % 86400000000 / 1000000
+  (if us < 0 then [45] else []) ++
+    (if days > 0 then natDigits days ++ [32, 100, 97, 121] ++ (if days = 1 then [] else [115]) else hms secs)
+
 /-- a registered job as `Scheduler.__str__` sees it: the due instant `sorted(self.jobs)` compares
     (`BaseJob.__lt__` = `self.datetime < other.datetime`) and the cells of its row (already passed
     through `str_cutoff` where the code does so) -/
